@@ -72,6 +72,7 @@ typedef struct tk {
 	int        cx_total_attempts;
 	int        cx_success, cx_final_fail, cx_fail_reports;
 	int        cx_created;
+	int        hsw_task;            /* created for another handler and switched */
 	int        ext_in_start;        /* a non-pool thread is inside tp_task_start() for this task right now */
 	int        starting;            /* inside tp_task_start_ex(0,...): a callback now is the direct first I/O, nothing is scheduled yet */
 } tk;
@@ -611,7 +612,7 @@ static void op_task(const item_t *it) {
 				/* created for one handler, switched to another before the start (what a server does when it takes a
 				 * connection over from its accept stage): I/O events AND the timeout must reach the new handler */
 				rc = tp_task_create(tpt, (uintptr_t)t->fd, tp_task_notify_handler, t->tflags, t, &t->task);
-				if (0 == rc) { tp_task_tp_cb_func_set(t->task, tp_task_sr_handler); sim_probe("c16.handler_switched_before_start"); }
+				if (0 == rc) { tp_task_tp_cb_func_set(t->task, tp_task_sr_handler); t->hsw_task = 1; sim_probe("c16.handler_switched_before_start"); }
 			} else
 			rc = tp_task_create(tpt, (uintptr_t)t->fd, tp_task_sr_handler, t->tflags, t, &t->task);
 			if (0 == rc) { sim_probe("c16.start_without_scheduling"); t->starting = 1; rc = tp_task_start_ex(0, t->task, ev, t->evfl, t->timeout_ms, 0, &t->buf, stream_cb); t->starting = 0; }
@@ -734,6 +735,16 @@ static void op_ctl(const item_t *it, const char *k) {
 		if ((t->kind == K_RECV || t->kind == K_SEND) && t->buf.transfer_size == 0) return;
 		if (t->eof_reported || t->err_reported) return;
 		t->expect_silence = 0; t->state = ST_ARMED; t->last_arm = sim_now();
+		if (item_get(it, "newstart", 0) && (t->kind == K_RECV || t->kind == K_SEND) && !t->hsw_task) {
+			/* not "go on" but a NEW start on the rest of the window (tp_task_start): the accounting begins afresh - what
+			 * the stopped transfer had moved without reporting belongs to the past */
+			size_t unrep = t->buf.offset - t->last_off;
+			t->done += unrep; t->last_off = t->buf.offset;
+			sim_probe(unrep ? "c16.new_start_after_partial_transfer" : "c16.new_start_after_stop");
+			rc = tp_task_start(t->task, (t->kind == K_RECV) ? TP_EV_READ : TP_EV_WRITE, t->evfl, t->timeout_ms, 0, &t->buf, stream_cb);
+			if (0 != rc) sim_violation("io-ctl", "task %d: tp_task_start on a stopped task failed with %d", slot, rc);
+			return;
+		}
 		rc = tp_task_restart(t->task);
 		if (0 != rc) sim_violation("io-ctl", "task %d: tp_task_restart failed with %d", slot, rc);
 		sim_probe("c16.restart_after_stop");
@@ -893,6 +904,7 @@ static void c16_gen(plan_t *p, rng_t *r, int tier) {
 				item_set(&co->it, "actor", 2);
 				item_set(&co->it, "t", s);
 				item_set(&co->it, "dly", (long long)rng_range(r, 1000, 30000000));
+				item_set(&co->it, "newstart", rng_chance(r, 400));
 			}
 		}
 	}
